@@ -105,6 +105,34 @@ def gen_defaults_base(rng, max_atoms=5):
     return sig, conds
 
 
+def gen_deep_pair(rng, sig):
+    """Two conditionals that agree down to nesting depth 6 and differ only below (they collide in
+    any cache keyed on an abbreviated formula text)."""
+    p_, b_ = rng.sample(sig, 2)
+    leaf = rng.choice(sig)
+    out = []
+    for neg in (False, True):
+        x = ("not", ("var", leaf)) if neg else ("var", leaf)
+        for _ in range(3):
+            x = ("and", ("var", b_), ("or", ("not", ("var", p_)), x))
+        out.append((x, ("var", p_)))
+    return out
+
+
+def gen_large_base(rng, n_atoms=5, n_conds=None):
+    """A consistent base with 10-13 literal conditionals (all verified by one hidden world)."""
+    sig = ATOMS[:n_atoms]
+    star = {a: rng.random() < 0.7 for a in sig}
+
+    def lit(a):
+        return ("var", a) if star[a] else ("not", ("var", a))
+
+    pairs = [(b, a) for a in sig for b in sig if a != b]
+    rng.shuffle(pairs)
+    n = n_conds or rng.randint(10, 13)
+    return sig, [(lit(b), lit(a)) for b, a in pairs[:n]]
+
+
 def gen_survivor_query(rng, conds):
     """(x | A1,!B1 ; A2,!B2) where (x|A) is a further default of the base: entailed only through
     several minimal correction sets."""
